@@ -46,6 +46,8 @@ mod union;
 mod wrapper;
 
 pub use self::sketch::CpcSketch;
+#[cfg(feature = "verif-hooks")]
+pub use self::sketch::VerifCpcState;
 pub use self::union::CpcUnion;
 pub use self::wrapper::CpcWrapper;
 
